@@ -189,6 +189,7 @@ func Main() {
 	SavedStdout = os.Stdout
 	devnull, _ := os.OpenFile(os.DevNull, os.O_WRONLY, 0)
 	os.Stdout = devnull
+	sched.SnapshotGlobals() // package-level variables of the repository, as initialised: every execution starts from them
 
 	if *replay != "" {
 		b, err := os.ReadFile(*replay)
